@@ -146,6 +146,10 @@ Fixpoint del_in (paths:list str) (only:option str) (path_o:str) (o:obj) {struct 
                 end) ks) a
   end.
 
+(* merge_phil: "if len(redundant_paths) > 0: delete_phil_objects(old_phil, redundant_paths, only_scope)" *)
+Definition prune (red:list str) (only:option str) (w:obj) : obj :=
+  match red with [] => w | _ => del_in red only [] w end.
+
 (* ---------- the index object *)
 Section IndexMachine.
   Variable py : Type.                                   (* extracted Python objects (opaque) *)
@@ -223,7 +227,7 @@ Section IndexMachine.
   Definition merge (s:state) (u:obj) (only:option str) (overwrite:bool) : state * out :=
     let old := working s in
     let red := if overwrite then redundant s u else [] in
-    let old' := match red with [] => old | _ => del_in red only [] old end in
+    let old' := prune red only old in
     match fetch master [old'; u] with
     | OErr e => (set_working s old', match red with [] => ORefused e | _ => OBroke e end)
     | OOk new => rebuild_then (set_working s new) (fun s2 => (invalidate s2, ONone))
@@ -233,6 +237,17 @@ Section IndexMachine.
     match fetch (working s) [] with
     | OErr e => OErr e
     | OOk c => OOk (set_states s (states s ++ [c]))
+    end.
+
+  (* rest of update_from_python once python_object (p) is chosen: push_state, format, rebuild_index *)
+  Definition ufp_tail (po:option py) (p:py) (s1:state) : state * out :=
+    match push s1 with                                   (* self.push_state() *)
+    | OErr e => (s1, match po with None => ORefused e | Some _ => OBroke e end)
+    | OOk s2 =>
+        match format master p with
+        | OErr e => (s2, OBroke e)
+        | OOk t => rebuild_then (set_working s2 t) (fun s3 => (s3, ONone))
+        end
     end.
 
   Definition step (fixed:bool) (s:state) (o:op) : state * out :=
@@ -253,15 +268,7 @@ Section IndexMachine.
                | None => match params s with Some p => Some (p, s) | None => None end
                end) with
         | None => (s, ORet false)
-        | Some (p, s1) =>
-            match push s1 with                                   (* self.push_state() *)
-            | OErr e => (s1, match po with None => ORefused e | Some _ => OBroke e end)
-            | OOk s2 =>
-                match format master p with
-                | OErr e => (s2, OBroke e)
-                | OOk t => rebuild_then (set_working s2 t) (fun s3 => (s3, ONone))
-                end
-            end
+        | Some (p, s1) => ufp_tail po p s1
         end
     | Push =>
         match push s with
